@@ -724,7 +724,7 @@ package cl
 //@ func cl.(*Subsetp).Call
 //@   property C14
 //@   count-calls ObjectEqual
-//@   ensures refused-only-after-comparing: (result0 == nil && tc == nil && len(keys) > 0) ==> $ncall_ObjectEqual >= 1
+//@   ensures refused-only-after-comparing: (result0 == nil && tc == nil && kc == nil && len(list2) > 0) ==> $ncall_ObjectEqual >= 1
 //@   loop rangeindex+1<len(keys): invariant compared-so-far: $ncall_ObjectEqual >= 0 && (tc == nil ==> $ncall_ObjectEqual >= rangeindex + 1)
 //@   loop rangeindex+1<len(list1): invariant counted-from-zero: $ncall_ObjectEqual >= 0
 //@   loop i<len(list2): invariant counted-from-zero: $ncall_ObjectEqual >= 0
